@@ -5,7 +5,9 @@ import vlib
 MODULE = "ExecManager"
 TIMEOUT_MS = 100
 META = {
-    "technique": "TLC model checking of ExecManager (safety exhaustively, liveness under weak fairness) + "
+    "spec": ["ExecManager", "BarterSystem"],
+    "technique": "TLC model checking of ExecManager (safety exhaustively, liveness under weak fairness) and of the "
+                 "composition BarterSystem (in flight ~> resolved) + "
                  "trace validation of the real ExecutionManager::run under tokio's paused clock against the spec",
     "level_note": "Trusted: TLC, the projection (emit_line) and the scripted ExecutionClient in harness/src/bin/c07.rs, "
                   "tokio's paused clock as the source of the virtual-time stamps, the environment assumptions listed in "
@@ -245,6 +247,12 @@ def check(ctx):
         ctx.tlc_mc(MODULE, "MC_ExecManager_thorough2.cfg", timeout=1800, coverage=False)
         ctx.tlc_mc(MODULE, "MC_ExecManager_live.cfg", timeout=900)
         ctx.tlc_mc(MODULE, "MC_ExecManager_live_thorough.cfg", timeout=1800, coverage=False)
+    # the closing sentence of C07 ("an order the engine shows as in flight is always eventually
+    # resolved") is a liveness property of the COMPOSITION engine + request channel + execution
+    # manager + account feed (spec/BarterSystem.tla, weak fairness of manager / answer race / engine
+    # loop); the weakened specification without answer fairness must violate it (non-vacuity)
+    ctx.tlc_mc("BarterSystem", "MC_BarterSystem.cfg", timeout=900)
+    ctx.tlc_expect_violation("BarterSystem", "MC_BarterSystem_unfair.cfg", "Temporal property Resolved was violated")
     # spec -> impl -> spec: every generated batch runs on the real manager, its trace is validated
     p_t, scn_t = ctx.tlc_gen("Gen_" + MODULE, "GenT_ExecManager.cfg", "batches.ndjson")
     out_t, _ = run_scenarios(ctx, p_t, scn_t, "batches")
